@@ -103,7 +103,41 @@ def k_partial():
   return p, 'x', lambda r: r[2], dict(call=lambda f: f(), needs_name=True)
 
 
-CALLABLES = {'def': k_def, 'lambda': k_lambda, 'sum': k_sum, 'len': k_len, 'str.upper': k_str_upper,
+def k_wraps_decorated():
+  def inner(a='da', x='dx'):
+    """doc of inner."""
+    return ('wrapsdeco', a, x)
+
+  @functools.wraps(inner)
+  def deco(*args, **kwargs):
+    return inner(*args, **kwargs)
+  put(deco, fresh('wdeco'))
+  return deco, 'x', lambda r: r[2], dict(call=lambda f: f())
+
+
+def k_lru_cached():
+  def inner(a='da', x='dx'):
+    return ('lru', a, x)
+  cached = functools.lru_cache(maxsize=None)(inner)
+  return cached, 'x', lambda r: r[2], dict(call=lambda f: f(), needs_name=True)
+
+
+def k_double_wrapped():
+  def inner(a='da', x='dx'):
+    return ('double', a, x)
+
+  def deco(fn):
+    @functools.wraps(fn)
+    def w(*args, **kwargs):
+      return fn(*args, **kwargs)
+    return w
+  d = deco(deco(inner))
+  put(d, fresh('dwrap'))
+  return d, 'x', lambda r: r[2], dict(call=lambda f: f())
+
+
+CALLABLES = {'wraps_decorated': k_wraps_decorated, 'lru_cached': k_lru_cached, 'double_wrapped': k_double_wrapped,
+             'def': k_def, 'lambda': k_lambda, 'sum': k_sum, 'len': k_len, 'str.upper': k_str_upper,
              'object.__init__': k_method_wrapper, 'callable_obj': k_callable_obj, 'partial': k_partial}
 
 
